@@ -200,6 +200,10 @@ func (c *ContractIterator) Value() []byte {
 // stripDelIterator 从迭代器里剔除删除标注和空版本
 type stripDelIterator struct {
 	ledger.XMIterator
+	// emptyVersion: also strip entries with an empty version, i.e. keys which were never
+	// written but are held in the read set because they have been looked up.
+	// Must be off for iterators carrying entries of outputsCache, which have no version.
+	emptyVersion bool
 }
 
 func newStripDelIterator(xmiter ledger.XMIterator) ledger.XMIterator {
@@ -208,10 +212,21 @@ func newStripDelIterator(xmiter ledger.XMIterator) ledger.XMIterator {
 	}
 }
 
+// newStripDelAndEmptyIterator strips delete marks and empty versions
+func newStripDelAndEmptyIterator(xmiter ledger.XMIterator) ledger.XMIterator {
+	return &stripDelIterator{
+		XMIterator:   xmiter,
+		emptyVersion: true,
+	}
+}
+
 func (s *stripDelIterator) Next() bool {
 	for s.XMIterator.Next() {
 		v := s.Value()
 		if IsDelFlag(v.PureData.Value) {
+			continue
+		}
+		if s.emptyVersion && IsEmptyVersionedData(v) {
 			continue
 		}
 		return true
